@@ -188,6 +188,10 @@ impl World for BarrierWorld {
         m
     }
 
+    fn word_addrs(&self) -> Vec<usize> {
+        self.barrier.__verif_snapshot().addrs
+    }
+
     fn pending(&self) -> usize {
         self.futs.values().filter(|x| x.polled && !x.done).count()
     }
